@@ -29,6 +29,7 @@ class PowerRecorder:
         self.emit: Dict[int, int] = {}
         self.active = False
         self.rm: Dict[int, Any] = {}
+        self.prog0: Dict[int, int] = {}
 
     @staticmethod
     def project(n) -> Dict[str, Any]:
@@ -52,7 +53,10 @@ class PowerRecorder:
         self.active = True
 
     def _ev(self, n, ev, kind="", ok=False, acc=0, em=0):
-        self.tr[id(n)]["ev"].append({"ev": ev, "kind": kind, "ok": bool(ok), "acc": acc, "emit": em, **self.project(n)})
+        from .c12 import progress
+
+        self.tr[id(n)]["ev"].append({"ev": ev, "kind": kind, "ok": bool(ok), "acc": acc, "emit": em, "prog0": self.prog0.pop(id(n), 0) if ev == "Tick" else 0,
+                                     "prog": progress(n), **self.project(n)})
 
     def _flush(self, n):
         i = id(n)
@@ -92,6 +96,9 @@ class PowerRecorder:
         def before_tick(n, timestep):
             if mine(n):
                 r._flush(n)
+                from .c12 import progress
+
+                r.prog0[id(n)] = progress(n)
 
         def after_tick(n, tok, ret, exc, timestep):
             if mine(n):
